@@ -369,6 +369,9 @@ func runStateSetters(a *Analyzer, r *Results) {
 					ev.Verdict("S7.reset", props("C13"), "the view is reset to 0 together with a height increase", "", ev.Arg(0).Key() == Const("0").Key(), "stores view "+PP(ev.Arg(0)))
 				}
 			case "state.State.height":
+				if fn.Name() == "SetView" && (unfreeze(ev.Arg(0)).Key() == h.Key() || unsnap(ev.Arg(0)).Key() == h.Key()) {
+					continue // writing the height back unchanged (a "store both fields" helper) is not a height write
+				}
 				nh++
 				ev.Require("S7", props("C10", "C13"), "the height is written only when the new height is strictly above the current one", "", Lt(h, arg))
 				ev.Verdict("S7.value", props("C13"), "SetHeightAndResetView stores its argument", "", ev.Arg(0).Key() == arg.Key(), "stores "+PP(ev.Arg(0)))
@@ -384,11 +387,25 @@ func runStateSetters(a *Analyzer, r *Results) {
 		{
 			after := map[ssa.Instruction]bool{}
 			for _, e := range effs {
-				if e.Kind == "store" && (e.Name == "state.State.view" || e.Name == "state.State.height") && e.Instr.Parent() == fn {
-					blk := e.Instr.Block()
+				if e.Kind == "store" && (e.Name == "state.State.view" || e.Name == "state.State.height") {
+					// the write itself, or the call in this setter through which a helper does the writing
+					anchor := e.Instr
+					if anchor.Parent() != fn {
+						anchor = nil
+						for _, fr := range e.Path {
+							if fr.Call != nil && fr.Call.Parent() == fn {
+								anchor = fr.Call
+								break
+							}
+						}
+						if anchor == nil {
+							continue
+						}
+					}
+					blk := anchor.Block()
 					past := false
 					for _, in := range blk.Instrs {
-						if in == e.Instr {
+						if in == anchor {
 							past = true
 						}
 						if past {
